@@ -293,3 +293,11 @@ pub fn server_start(
 
     Ok((ServerRef { core_ref, comm_ref }, future))
 }
+
+#[cfg(it4innovations_hyperqueue_verif)]
+impl ServerRef {
+    /// Verification hook: a `ServerRef` over harness-owned core and comm (no listener, no scheduler loop).
+    pub(crate) fn verif_new(core_ref: CoreRef, comm_ref: CommSenderRef) -> ServerRef {
+        ServerRef { core_ref, comm_ref }
+    }
+}
